@@ -21,15 +21,15 @@ func modJSEscape(ctx *Ctx, buf *any, val any, args []any) (err error) {
 			case '/':
 				ctx.BufAcc.WriteString("\\/")
 			case '\x08':
-				ctx.BufAcc.WriteByte('\b')
+				ctx.BufAcc.WriteString("\\b")
 			case '\x0C':
-				ctx.BufAcc.WriteByte('\f')
+				ctx.BufAcc.WriteString("\\f")
 			case '\x0A':
-				ctx.BufAcc.WriteByte('\n')
+				ctx.BufAcc.WriteString("\\n")
 			case '\x0D':
-				ctx.BufAcc.WriteByte('\r')
+				ctx.BufAcc.WriteString("\\r")
 			case '\x09':
-				ctx.BufAcc.WriteByte('\t')
+				ctx.BufAcc.WriteString("\\t")
 			default:
 				if r != ',' && r != '.' && r != '_' && (r < 'a' || r > 'z') && (r < 'A' || r > 'Z') && (r < '0' || r > '9') {
 					wr := func(r int32) {
